@@ -161,6 +161,27 @@ class Registries(object):
             for ver, cats in self.maps.items()
         }
 
+    def shape(self):
+        """Observable class-level state of every registered class (a registration can also be damaged without
+        the map changing: e.g. a failed construction editing a registered extension's property table)."""
+        out = {}
+        for ver, cats in self.maps.items():
+            for cat, m in cats.items():
+                for name, cls in m.items():
+                    props = getattr(cls, '_properties', None)
+                    tl = getattr(cls, '_toplevel_properties', None)
+                    out[(ver, cat, name)] = (
+                        tuple(props) if props is not None else None,
+                        tuple(tl) if tl is not None else None,
+                        tuple(getattr(cls, '_id_contributing_properties', ()) or ()),
+                        getattr(cls, '_type', None),
+                    )
+        return out
+
+    @staticmethod
+    def shape_diff(before, after):
+        return sorted('%s/%s/%s' % k for k in before if k in after and before[k] != after[k])
+
     def diff(self, other=None):
         """List of (ver, cat, name, kind) differences between the snapshot and
         the current state (or `other`)."""
